@@ -17,25 +17,28 @@ import (
 
 // Target is the plain-data description of one function target.
 type Target struct {
-	ID      int      `json:"id"`
-	Pkg     int      `json:"pkg"`
-	Deps    []int    `json:"deps,omitempty"`    // IDs of targets it depends on (always lower IDs)
-	DepForm int      `json:"depform,omitempty"` // 0 absolute label strings, 1 relative where possible, 2 target objects where possible
-	Sources []string `json:"sources,omitempty"` // package-relative source file names
-	SrcDir  string   `json:"srcdir,omitempty"`  // package-relative source directory
-	Gen     bool     `json:"gen,omitempty"`     // declares a generated file g<ID>.gen
-	GenSrc  []int    `json:"gensrc,omitempty"`  // IDs of (lower) targets whose generated file is a declared source here
-	Always  bool     `json:"always,omitempty"`
-	Default bool     `json:"default,omitempty"`
-	Body    int      `json:"body"`   // template 0..9
-	K       string   `json:"k"`      // Starlark literal of the constant the body references
-	Salt    int      `json:"salt"`   // literal inside the body code
-	Helper  int      `json:"helper"` // helper module used by templates 5 and 6
-	Emit    []string `json:"emit,omitempty"`
-	Prints  []string `json:"prints,omitempty"`  // print() calls made before the emitted chunks
-	FwdDeps []int    `json:"fwddeps,omitempty"` // extra dependency labels on targets with the same or a higher ID (cycles; not read by the body)
-	Doc     int      `json:"doc,omitempty"`     // docstring variant (0 = none)
-	Removed bool     `json:"removed,omitempty"`
+	ID        int      `json:"id"`
+	Pkg       int      `json:"pkg"`
+	Deps      []int    `json:"deps,omitempty"`    // IDs of targets it depends on (always lower IDs)
+	DepForm   int      `json:"depform,omitempty"` // 0 absolute label strings, 1 relative where possible, 2 target objects where possible
+	Sources   []string `json:"sources,omitempty"` // package-relative source file names
+	SrcDir    string   `json:"srcdir,omitempty"`  // package-relative source directory
+	Gen       bool     `json:"gen,omitempty"`     // declares a generated file g<ID>.gen
+	GenSrc    []int    `json:"gensrc,omitempty"`  // IDs of (lower) targets whose generated file is a declared source here
+	Always    bool     `json:"always,omitempty"`
+	Default   bool     `json:"default,omitempty"`
+	Body      int      `json:"body"`   // template 0..9
+	K         string   `json:"k"`      // Starlark literal of the constant the body references
+	Salt      int      `json:"salt"`   // literal inside the body code
+	Helper    int      `json:"helper"` // helper module used by templates 5 and 6
+	Emit      []string `json:"emit,omitempty"`
+	Prints    []string `json:"prints,omitempty"`    // print() calls made before the emitted chunks
+	GhostDeps []string `json:"ghostdeps,omitempty"` // extra dependency labels that name nothing (missing target, package without a BUILD file)
+	KindDeps  []int    `json:"kinddeps,omitempty"`  // members of Deps whose label is spelled with its kind: target://pkg:name
+	OrdDeps   []int    `json:"orddeps,omitempty"`   // ordering-only dependencies on targets with lower IDs: declared, not read by the body
+	FwdDeps   []int    `json:"fwddeps,omitempty"`   // extra dependency labels on targets with the same or a higher ID (cycles; not read by the body)
+	Doc       int      `json:"doc,omitempty"`       // docstring variant (0 = none)
+	Removed   bool     `json:"removed,omitempty"`
 }
 
 // Helper is a helper module //lib:h<i>.dawn.
@@ -137,6 +140,9 @@ func (m *Model) Clone() *Model {
 		t.Emit = append([]string{}, t.Emit...)
 		t.Prints = append([]string{}, t.Prints...)
 		t.FwdDeps = append([]int{}, t.FwdDeps...)
+		t.OrdDeps = append([]int{}, t.OrdDeps...)
+		t.KindDeps = append([]int{}, t.KindDeps...)
+		t.GhostDeps = append([]string{}, t.GhostDeps...)
 		c.Targets[i] = t
 	}
 	c.Files = map[string]string{}
@@ -201,7 +207,7 @@ func (m *Model) DirectDeps(id int) []int {
 	seen := map[int]bool{}
 	var out []int
 	t := m.Targets[id]
-	for _, d := range append(append([]int{}, t.Deps...), t.GenSrc...) {
+	for _, d := range append(append(append([]int{}, t.Deps...), t.GenSrc...), t.OrdDeps...) {
 		if !seen[d] && d < len(m.Targets) {
 			seen[d] = true
 			out = append(out, d)
@@ -406,6 +412,10 @@ func (m *Model) renderTarget(t *Target) string {
 		ins = fmt.Sprintf("[FLAGV, K%d]", id)
 	case 8:
 		ins = fmt.Sprintf("[T%d, K%d]", m.valueTarget(t), id)
+	case 10:
+		// a helper that calls itself (its fingerprint holds a placeholder for the recursive reference)
+		fmt.Fprintf(&b, "def rec%d(n):\n    if n <= 0:\n        return K%d\n    return rec%d(n - 1)\n", id, id, id)
+		ins = fmt.Sprintf("[rec%d(2)]", id)
 	case 9:
 		// two functions with the same name ("lambda"); the constant is referenced by the second
 		fmt.Fprintf(&b, "L%d = lambda: %d\nM%d = lambda: K%d\n", id, id, id, id)
@@ -476,16 +486,25 @@ func (m *Model) renderTarget(t *Target) string {
 	// target declaration
 	var args []string
 	args = append(args, fmt.Sprintf("name=%s", quote(t.Name())))
-	if len(t.Deps)+len(t.FwdDeps) > 0 {
+	if len(t.Deps)+len(t.FwdDeps)+len(t.OrdDeps)+len(t.GhostDeps) > 0 {
 		var ds []string
-		for _, d := range t.FwdDeps {
+		for _, g := range t.GhostDeps {
+			ds = append(ds, quote(g))
+		}
+		for _, d := range append(append([]int{}, t.FwdDeps...), t.OrdDeps...) {
 			if d < len(m.Targets) {
 				ds = append(ds, quote(m.Label(d)))
 			}
 		}
 		for _, d := range t.Deps {
 			dt := m.Targets[d]
+			kinded := false
+			for _, k := range t.KindDeps {
+				kinded = kinded || k == d
+			}
 			switch {
+			case kinded:
+				ds = append(ds, quote("target:"+m.Label(d)))
 			case t.DepForm == 2 && dt.Pkg == t.Pkg && !dt.Removed && d < id:
 				ds = append(ds, fmt.Sprintf("T%d", d))
 			case t.DepForm == 1 && dt.Pkg == t.Pkg:
